@@ -269,14 +269,17 @@ Definition v7tar_entry (full : bool) (e : entry) : ewrite :=
 
 (* ------------------------------------------------------------------ gnutar *)
 Definition gnutar_fields (name linkname uname gname : list Z) (e : entry) (tartype : Z) : Z * list wr :=
+  let ret := pick ((GNUTAR_uname_size <? length uname)%nat) ST_WARN 0 in
+  let ret := pick ((GNUTAR_gname_size <? length gname)%nat) ST_WARN ret in
   let fmode := gnutar_format_octal (Z.land (e_mode e) 4095) GNUTAR_mode_size in
   let fuid := gnutar_format_number (e_uid e) GNUTAR_uid_size GNUTAR_uid_max_size in
-  let ret := pick (negb (fst fuid =? 0)) ST_FAILED 0 in
+  let ret := pick (negb (fst fuid =? 0)) ST_FAILED ret in
   let fgid := gnutar_format_number (e_gid e) GNUTAR_gid_size GNUTAR_gid_max_size in
   let ret := pick (negb (fst fgid =? 0)) ST_FAILED ret in
   let fsize := gnutar_format_number (size_of e) GNUTAR_size_size GNUTAR_size_max_size in
   let ret := pick (negb (fst fsize =? 0)) ST_FAILED ret in
-  let fmtime := gnutar_format_octal (e_mtime e) GNUTAR_mtime_size in
+  let fmtime := gnutar_format_number (e_mtime e) GNUTAR_mtime_size GNUTAR_mtime_max_size in
+  let ret := pick (negb (fst fmtime =? 0)) ST_FAILED ret in
   let fmaj := gnutar_format_octal (dev_major (e_rdev e)) GNUTAR_rdevmajor_size in
   let ret := pick (is_dev e && negb (fst fmaj =? 0)) ST_FAILED ret in
   let fmin := gnutar_format_octal (dev_minor (e_rdev e)) GNUTAR_rdevminor_size in
@@ -317,6 +320,7 @@ Definition gnutar_long (tartype : Z) (linkname s : list Z) : Z * list Z :=
   else (ret, h ++ s ++ [0] ++ zeros (Z.to_nat (pad_to 512 len))).
 
 Definition gnutar_entry (full : bool) (e0 : entry) : ewrite :=
+  if negb (is_some (e_path e0)) then mkEw ST_FAILED [] 0 [] 0 else
   let e := dir_slash (no_body e0) in
   let name := ob (e_path e) in
   let linkname := linkname_of e in
